@@ -13,6 +13,7 @@ import (
 func main() {
 	cfg := hlib.ParseFlags()
 	s := hlib.NewSuite(cfg, "frameops")
+	defer s.FinishOnPanic()
 	s.Header = "From QF Require Import Base.Prelude Base.CaseLib Model.Frame Model.Filter Model.Ops Model.Eval Corr.FrameCorr.\nLocal Open Scope N_scope.\n"
 	s.CaseType = "frame_case"
 	s.CheckFn = "check_frame_case"
